@@ -441,6 +441,40 @@ def run_image_tables(rep, steps):
                              detail={"partition": pi, "expected_chain": list(chain), "observed": repr(got[0] if st2 == "ok" else got)[:120]})
 
 
+def run_image_tables_roland(rep, steps):
+    """Roland images through the real image parser: the FAT the image object holds resolves every file's chain and its
+    streams deliver exactly those clusters -- for chains over the LAST clusters the image file holds, too"""
+    from mcv.gen import roland as R
+    from mcv.engine import tree
+    for top in (5, 6):
+        for k in (1, 2, 3):
+            for ch in itertools.permutations(range(2, top + 1), k):
+                if top not in ch and top - 1 not in ch and k > 1:
+                    continue
+                smp = {0: {"name": "S", "chain": list(ch), "points": [0, 0, 99, 0, 9], "mode": 0, "seq": 1}}
+                if top not in ch:
+                    smp[1] = {"name": "T", "chain": [top], "points": [0, 0, 9, 0, 9], "mode": 0, "seq": 2}      # (fixes the image size)
+                model = {"volumes": [{"name": "VOL", "perfs": [0]}], "performances": {0: {"name": "PERF", "patches": [0]}},
+                         "patches": {0: {"name": "PATCH", "partials": [0]}}, "partials": {0: {"name": "PART", "samples": sorted(smp)}},
+                         "samples": smp}
+                img = R.build_roland(model)[0]
+                want = b"".join(img[R.DATA_FAT_OFF + c * R.CLUSTER:R.DATA_FAT_OFF + (c + 1) * R.CLUSTER] for c in ch)
+                case = {"seam": "image_tables_roland", "chain": list(ch), "last_cluster": top, "start": ch[0]}
+
+                def go():
+                    image = tree.open_image(img)
+                    return list(image.fat.get_path(ch[0])), image.fat.get_file(ch[0]).read(-1)
+                st, got = guarded(go, 20.0)
+                steps[0] += k
+                if st == "ok" and got[0] == list(ch) and got[1] == want:
+                    rep.case(case, klass="image-table-exact", nontrivial=k > 1)
+                else:
+                    rep.case(case, ok=False, klass="image-table-wrong", nontrivial=True,
+                             sig="image_tables_roland:" + ("raised:" + exc_sig(got) if st == "exc" else ("hang" if st == "hang" else ("wrong-chain" if got[0] != list(ch) else "stream-wrong"))),
+                             detail={"expected_chain": list(ch), "last_cluster_of_the_image": top, "observed": repr(got[0] if st == "ok" else got)[:120],
+                                     "stream_length": len(got[1]) if st == "ok" else None, "expected_length": len(want)})
+
+
 # ----------------------------------------------------------------------------- (d) streams over chains
 def run_streams(n, rep):
     F = _fat_mod()
@@ -544,7 +578,7 @@ class Check(CheckBase):
             "(c') all tables over 3 (quick) / 4 (thorough) scanned cells x free-cluster count word {1,2,3,4,5,15,16,0xFFF1,0xFFFF} "
             "x the four accepted version-flag pairs (redundant header words must not influence any chain); (d) FileStream.readall over every injective chain of "
             "<=n sectors; (e) the streams the tables hand out (AKAI get_segment, Roland get_file) for every injective chain of <=4 "
-            "(thorough 5) sectors: resolved four times, read to the end twice and in turn through two handles; (f) the chain LENGTH as a dimension: one well-formed chain of 1..8000 / all sectors (AKAI 11385, Roland 65523 clusters) in a table of the real size, laid out ascending / descending / as a stride walk, and the same chain closed into a cycle (judged on termination only); (g) 18 two-partition AKAI images through the real image parser, one after the other in one process: each partition's table resolves its own file's chain and its stream delivers that partition's sectors. states = (table,start) combinations; transitions = table element reads performed by the "
+            "(thorough 5) sectors: resolved four times, read to the end twice and in turn through two handles; (f) the chain LENGTH as a dimension: one well-formed chain of 1..8000 / all sectors (AKAI 11385, Roland 65523 clusters) in a table of the real size, laid out ascending / descending / as a stride walk, and the same chain closed into a cycle (judged on termination only); (g) 18 two-partition AKAI images through the real image parser, one after the other in one process: each partition's table resolves its own file's chain and its stream delivers that partition's sectors; Roland images whose files lie on every injective chain of <= 3 clusters that touches the last or last-but-one cluster the image file holds. states = (table,start) combinations; transitions = table element reads performed by the "
             "implementation (counted by list proxies, which are also the non-termination detector). "
             "non-trivial = reference chain has >=2 sectors or is malformed")
     assumptions = ["well-formed as worded in the statement: distinct in-range sectors, ends in an end marker (or last "
@@ -622,6 +656,7 @@ class Check(CheckBase):
             run_roland_embedded(shard["cells"], rep, steps)
         elif shard["seam"] == "image_tables":
             run_image_tables(rep, steps)
+            run_image_tables_roland(rep, steps)
         elif shard["seam"] == "long":
             run_long(shard["fmt"], shard["layout"], rep, steps)
         elif shard["seam"] == "streams":
@@ -648,6 +683,10 @@ class Check(CheckBase):
         elif seam in ("akai_segments", "roland_files"):
             run_table_streams(case["n"], sub)
             sub.violations = [v for v in sub.violations if v["case"].get("chain") == case["chain"] and v["case"]["seam"] == seam]
+            sub.viol_count = len(sub.violations)
+        elif seam == "image_tables_roland":
+            run_image_tables_roland(sub, steps)
+            sub.violations = [v for v in sub.violations if v["case"].get("chain") == case["chain"] and v["case"].get("last_cluster") == case["last_cluster"]] or sub.violations[:1]
             sub.viol_count = len(sub.violations)
         elif seam == "image_tables":
             run_image_tables(sub, steps)
